@@ -77,9 +77,6 @@ ASSUMPTIONS = [
     'equality of floats written in the table with the floats the reader produces via float() (exact, same literals)',
 ]
 
-_FREE_KEYS = sorted({k for _, a in g1.ANNOTATIONS for k in a if k not in ('charge', 'weight')})
-
-
 def init_worker():
     logging.getLogger('pysmiles').setLevel(logging.ERROR)
 
@@ -160,46 +157,8 @@ def f7_model(ast):
 # --------------------------------------------------------------------------------------------------------
 # comparison
 # --------------------------------------------------------------------------------------------------------
-def observed_lists(graph):
-    nodes = {k: dict(d) for k, d in graph.nodes(data=True)}
-    edges = {}
-    for u, v, d in graph.edges(data=True):
-        try:
-            key = (min(u, v), max(u, v))
-        except TypeError:
-            key = (u, v)
-        edges[key] = d.get('order')
-    return nodes, edges
-
-
-def compare(exp_nodes, exp_edges, obs_nodes, obs_edges, free_keys=_FREE_KEYS):
-    """list of (kind, detail); empty when the observed graph is exactly the expected one"""
-    out = []
-    n = len(exp_nodes)
-    if len(obs_nodes) != n:
-        out.append(('wrong-node-count', 'expected %d nodes, got %d' % (n, len(obs_nodes))))
-        return out
-    if set(obs_nodes) != set(range(n)):
-        out.append(('wrong-node-keys', 'expected keys 0..%d, got %r' % (n - 1, sorted(obs_nodes, key=repr))))
-        return out
-    for i, exp in enumerate(exp_nodes):
-        got = obs_nodes[i]
-        for k, v in exp.items():
-            if k not in got or got[k] != v or type(got[k]) is not type(v):
-                out.append(('wrong-node-attributes', 'node %d: expected %s=%r, got %r' % (i, k, v, got.get(k, '<absent>'))))
-        for k in free_keys:
-            if k not in exp and k in got:
-                out.append(('wrong-node-attributes', 'node %d: unexpected key %s=%r' % (i, k, got[k])))
-    if out:
-        return out
-    if set(obs_edges) != set(exp_edges):
-        out.append(('wrong-edge-set', 'missing %r, unexpected %r' % (sorted(set(exp_edges) - set(obs_edges)),
-                                                                    sorted(set(obs_edges) - set(exp_edges)))))
-        return out
-    for e, o in exp_edges.items():
-        if obs_edges[e] != o or isinstance(obs_edges[e], bool):
-            out.append(('wrong-edge-order', 'edge %r: expected order %r, got %r' % (e, o, obs_edges[e])))
-    return out
+observed_lists = g1.observed_lists
+compare = g1.compare_exact
 
 
 def feature_tag(f):
@@ -248,12 +207,10 @@ def check_case(case):
     if not diffs:
         return Outcome(text, nontrivial, [])
     kind = diffs[0][0]
-    sig = classify(ast, text, feats, kind, ('graph', [obs_nodes.get(i, {}) for i in range(len(obs_nodes))]
-                                            if set(obs_nodes) == set(range(len(obs_nodes))) else [], obs_edges))
+    sig = classify(ast, text, feats, kind, ('graph', obs_nodes, obs_edges))
     return Outcome(text, nontrivial, [Failure('read_cgsmiles', kind, '%s: %s' % (text, '; '.join(d for _, d in diffs[:4])), sig,
                                               text=text, expected_edges=_fmt_edges(exp_edges),
                                               observed_edges=_fmt_edges(obs_edges))])
 
 
-def _fmt_edges(edges):
-    return sorted([list(k) + [v] for k, v in edges.items()], key=repr)
+_fmt_edges = g1.fmt_edges
